@@ -20,6 +20,8 @@ var ctxRefs = []string{
 	"@trigger", "@trigger.type", "@trigger.params", "@trigger.params.x", "@trigger.params.flag", "@trigger.params.nested.ok", "@trigger.keyword", "@trigger.user", "@trigger.origin",
 	"@resume", "@resume.type", "@resume.dial", "@globals.org_name", "@globals.limit", "@globals.missing", "@globals",
 	"@node.visit_count", "@node.uuid", "@ticket", "@ticket.topic", "@ticket.assignee",
+	// identifiers are case-insensitive
+	"@GLOBALS.Org_Name", "@Fields.Age", "@(CONTACT.FIELDS.gender)", "@Globals.LIMIT", "@(Upper(Contact.Name))", "@FIELDS.joined", "@Contact.Fields.Nick", "@Parent.Fields.SCORE", "@Results.Color",
 }
 
 var exprPool = []string{
